@@ -36,7 +36,7 @@ def _c07_jobs():
                   bounds="Decoder::read(std::string&) on a Decoder with 0 / 1..3 remaining bytes (all byte values symbolic), called without a preceding need() as "
                          "Primitive<std::string>::decode does; EXPECTED TO FAIL: out-of-bounds read of the length word (finding F1)"))
     # --- registered property codecs through PropertyCodecs::register_codec / get_decoder / PropertyDecoderT
-    common = dict(units=_IO_PC, eh=True, checks="mem", ll2c_flags=["--drop-ctor=PropertyCodecs.cc"], mem_gb=4, timeout=300)
+    common = dict(units=_IO_PC, eh=True, checks="mem", ll2c_flags=["--drop-ctor=PropertyCodecs.cc"], mem_gb=4)
     for (cid, name, esz) in _CODECS:
         if cid == 0:
             spans_q = [(c, f) for c in (1, 7, 8, 9, 15, 16, 17) for f in sorted(set([0, min(1, 17 - c), 17 - c]))]
@@ -45,25 +45,27 @@ def _c07_jobs():
                           shards={"quick": [{1: c, 2: f} for (c, f) in spans_q], "thorough": [{1: c, 2: f} for (c, f) in spans_t]},
                           bounds="PropertyDecoderT<bool,BoolPropCodec>::deserialize on a 17-element property, span {first,count} one query each "
                                  "(quick: count in {1,7,8,9,15,16,17} x first in {0,1,17-count}; thorough: all 153 spans), payload = 0..3 symbolic bytes (exact allocation): "
-                                 "parse_error iff fewer than ceil(count/8) bytes, else bits unpacked LSB-first into exactly [first,first+count)", **common))
+                                 "parse_error iff fewer than ceil(count/8) bytes, else bits unpacked LSB-first into exactly [first,first+count)", timeout=300, **common))
             continue
         for tier, nel in (("quick", 2), ("thorough", 3)):
+            if tier == "quick" and name == "s32": tier_list = ["thorough"]   # unmeasured after the last harness change (timed out before it): thorough only
+            else: tier_list = [tier]
             J.append(dict(name="codec-%s%s" % (name, "" if tier == "quick" else "-n3"), harness="C07_propcodecs.cpp",
                           entries=["harness_deser_sufficient", "harness_request_sufficient"], defines=["CODEC=%d" % cid, "NELEM=%d" % nel],
-                          unwind=max(64, nel * esz + 6), tiers=[tier],
+                          unwind=max(64, nel * esz + 6), tiers=tier_list, timeout=300 if tier_list == ["quick"] else 1500,
                           bounds=("codec '%s': deserialize(storage of %d elements, symbolic span {first,count} within read_prop_chunk's checks) on a symbolic payload of " % (name, nel)) +
                                  ("4..7 bytes, one element (length word symbolic)" if esz == 0 else "k*%d or k*%d+1 bytes, k = 1..%d, at least count*%d (exact allocation)" % (esz, esz, nel, esz)) +
                                  "; request_property with a symbolic serialized_default of %d..%d bytes: memory-safe, success (string: or parse_error when the declared length exceeds the buffer)" %
                                  (esz or 4, (esz or 4) + 2), **common))
     # inputs too short for ONE element, as the reader hands them over: GENUINE FINDINGS (notes/C07-findings.md F2, F3); one failing CBMC property per entry
     names = [n for (_, n, _) in _CODECS if n != "b"]
-    quick_short = ["harness_deser_short_u32", "harness_request_short_u32", "harness_deser_short_3f", "harness_request_short_d", "harness_deser_short_u8", "harness_request_empty_u32"]
+    quick_short = ["harness_deser_short_u32", "harness_request_short_u32"]   # measured; the other 58 entries (all codecs, empty inputs) are in the thorough tier
     all_short = ["harness_%s_short_%s" % (k, n) for n in names for k in ("deser", "request")] + ["harness_deser_empty_u32", "harness_request_empty_u32"]
     for tier, ents in (("quick", quick_short), ("thorough", [e for e in all_short if e not in quick_short])):
         J.append(dict(name="codec-short-input" + ("" if tier == "quick" else "-all"), harness="C07_codec_short.cpp", entries=ents, unwind=64, tiers=[tier],
                       bounds="codecs reached as the reader reaches them (deserialize with span {0,1}; request_property) with an input ONE BYTE SHORTER than one element needs "
                              "(1-byte codecs and the *_empty_* entries: the empty input), every byte symbolic, exact heap allocation; "
-                             "EXPECTED TO FAIL: out-of-bounds / null read in Decoder::u8/u16/u32/u64 (findings F2/F3)", **common))
+                             "EXPECTED TO FAIL: out-of-bounds / null read in Decoder::u8/u16/u32/u64 (findings F2/F3)", timeout=300 if tier == "quick" else 1500, **common))
     return J
 
 if "C07" not in PROPS:
